@@ -97,11 +97,10 @@ def run(tier, seed):
         if fam == "invrect":
             continue
         for cb in (True, False):
-            for _ in range(reps):
-                args = G.sample_args(rng, name, cb, tier)
+            for ai, args in enumerate([G.sample_args(rng, name, cb, tier) for _ in range(reps)] + (G.corner_args(name, cb)[::(3 if (tier == "quick" and fam == "erf") else 1)])):
                 if fam == "erf" and not cb and args["degree"] > 24:
                     continue
-                if fam == "erf":
+                if fam == "erf" and ai < reps:
                     args["max_scale"] = float(rng.uniform(0.05, 1.0)) if rng.random() < 0.7 else 1.0
                 out = G.call(PL, name, args, True, False, cb)
                 ctx.count("gen:" + name)
